@@ -490,6 +490,8 @@ func (vc *VC) execFor(x *ast.ForStmt, st *State, label string) *State {
 		}
 	}
 	lr := &loopRun{ord: ord, spec: vc.loopSpec(ord, ofr), pos: x.Pos(), ghost: map[string]Value{}, entry: st.clone()}
+	vc.pushLoop(lr)
+	defer vc.popLoop()
 	mods := vc.modifiedVars(x.Body, x.Post, x.Cond)
 	vc.loopDirect = vc.directlyAssigned(x.Body, x.Post)
 	lr.typeInvs = vc.typeInvVars(mods)
@@ -528,6 +530,8 @@ func (vc *VC) execRange(x *ast.RangeStmt, st *State, label string) *State {
 	fr := vc.cur()
 	ord, ofr := vc.staticLoopOrd(x)
 	lr := &loopRun{ord: ord, spec: vc.loopSpec(ord, ofr), pos: x.Pos(), ghost: map[string]Value{}, entry: st.clone()}
+	vc.pushLoop(lr)
+	defer vc.popLoop()
 	xt := vc.typeOf(x.X)
 	// the range expression is evaluated once
 	var coll Value
@@ -847,3 +851,17 @@ func (vc *VC) iterValueFn(specName string, rs, ks, vs Sort) string {
 	vc.ss.declare(&sortInfo{Name: Sort("fn$" + fn), Kind: "const", Decl: fmt.Sprintf("(declare-fun %s (%s %s) %s)", fn, rs, ks, vs)})
 	return fn
 }
+
+// pushLoop: a loop nested in another sees the ghost variables of the
+// enclosing loop ($i, $done of the outer iteration in progress) unless it
+// defines its own.
+func (vc *VC) pushLoop(lr *loopRun) {
+	if n := len(vc.loopStack); n > 0 {
+		for k, v := range vc.loopStack[n-1].ghost {
+			lr.ghost[k] = v
+		}
+	}
+	vc.loopStack = append(vc.loopStack, lr)
+}
+
+func (vc *VC) popLoop() { vc.loopStack = vc.loopStack[:len(vc.loopStack)-1] }
